@@ -898,6 +898,13 @@ class StreamEngine(Engine):
                         _JUDGE.parse(_CORPUS.text(wl, i), wl)
                     except BaseException:  # noqa: BLE001
                         pass
+            # everything loaded so far (80 dialects) is permanent: keep it out of later
+            # garbage collections (a full collection of that heap inside a timed parse
+            # costs more CPU than the parse budget) and out of copy-on-write after fork
+            import gc
+
+            gc.collect()
+            gc.freeze()
         self.known_sigs = frozenset(load_known_findings(self.prop))
         _ENG = self
 
@@ -1011,11 +1018,16 @@ class StreamEngine(Engine):
             # cost minutes per input)
             site = out["site"]
             if _CONFIRMED[site] < 3:
-                again = [judge.parse(damaged, wl, 2.0)["outcome"] for _ in range(2)]
-                if all(a == "timeout" for a in again):
+                again = [judge.parse(damaged, wl, 2.0) for _ in range(2)]
+                if all(a["outcome"] == "timeout" for a in again):
                     _CONFIRMED[site] += 1
                 else:
-                    oc = "slow-but-finished"
+                    # the watchdog fired but the parse does finish (a garbage-collection
+                    # pause, a borderline input): judge what the finished execution
+                    # produced; only the statistics remember that it was slow once
+                    st["slow_but_finished"] += 1
+                    out = next(a for a in again if a["outcome"] != "timeout")
+                    oc = out["outcome"]
         st[f"outcome.{'W1' if wl == 0 else 'W2'}.{oc}"] += 1
         res.steps = out["events"]
         viol: Violation | None = None
@@ -1150,6 +1162,7 @@ class StreamEngine(Engine):
                 "enumerated_type_tweak": stats.get("enum.typetweak", 0),
             },
             "outcomes": {k[8:]: v for k, v in sorted(stats.items()) if k.startswith("outcome.")},
+            "watchdog_fired_but_parse_finished_on_reexecution": stats.get("slow_but_finished", 0),
             "enumerated_fault_position_token_kind": {k[4:]: v for k, v in sorted(stats.items()) if k.startswith("tok.")},
             "w2_escape_sites_not_judged": {k[15:]: v for k, v in sorted(stats.items()) if k.startswith("w2_escape_site.")},
             "step_budget_K": STEP_K,
